@@ -7,6 +7,7 @@ var allCmds = []string{"toma", "topa-stdout", "topa-dir", "samvariants", "varian
 
 type caseSize struct {
 	many bool // many tiny records (reaches the 50+threads buffers)
+	min3 bool // at least three records in every alignment / SAM (corruption positions first, middle, last)
 }
 
 // genCmdCase builds a valid input for one command form.
@@ -16,6 +17,13 @@ func genCmdCase(r *Rand, form string, sz caseSize) *Case {
 	nrec := r.Range(1, 8)
 	if sz.many {
 		nrec = r.Range(60, 150)
+	}
+	if sz.min3 && nrec < 3 {
+		nrec = r.Range(3, 8)
+	}
+	lo := 1
+	if sz.min3 {
+		lo = 3
 	}
 	switch form {
 	case "toma", "topa-stdout", "topa-dir", "samvariants":
@@ -114,8 +122,8 @@ func genCmdCase(r *Rand, form string, sz caseSize) *Case {
 	case "closest", "closestn":
 		w := r.Range(2, 24)
 		ref := genRefSeq(r, w)
-		nq := r.Range(1, 5)
-		nt := r.Range(1, 12)
+		nq := r.Range(lo, 5)
+		nt := r.Range(lo, 12)
 		if sz.many {
 			nt = r.Range(60, 120)
 		}
@@ -135,8 +143,8 @@ func genCmdCase(r *Rand, form string, sz caseSize) *Case {
 	case "topranking":
 		w := r.Range(4, 24)
 		ref := genRefSeq(r, w)
-		nq := r.Range(1, 4)
-		nt := r.Range(1, 12)
+		nq := r.Range(lo, 4)
+		nt := r.Range(lo, 12)
 		if sz.many {
 			nt = r.Range(60, 120)
 		}
